@@ -183,6 +183,12 @@ def exc_code(ex):
         return [0, 2]
     if isinstance(ex, IndexError):
         return [0, 3]
+    if isinstance(ex, KeyError):
+        return [0, 4]
+    if isinstance(ex, AttributeError):
+        return [0, 5]
+    if isinstance(ex, OverflowError):
+        return [0, 6]
     return ["EXC", type(ex).__name__]
 
 
